@@ -14,5 +14,5 @@ PROP = dict(
                          'TSan happens-before analysis decides race freedom of the executed accesses independent of timing'],
     bins=[rc('C12_transactional_tsan', 'harness/C12_transactional.cpp', None, cxx='g++', san='-fsanitize=thread -fno-omit-frame-pointer',
              flags='-DC12_TSAN -DC12_BIN=\\"C12_transactional_tsan\\"', thorough=dict(scale=8, seeds=4)),
-          rc('C12_transactional', 'harness/C12_transactional.cpp', None, thorough=dict(scale=8, seeds=4))],
+          rc('C12_transactional', 'harness/C12_transactional.cpp', None, hang_s=900, thorough=dict(scale=8, seeds=4))],
 )
